@@ -73,7 +73,7 @@ func TestC03_SelfCertifying(t *testing.T) {
 
 		// (b) single known-field modification
 		m := b.clone()
-		mod := rapid.IntRange(0, 10).Draw(t, "modification")
+		mod := rapid.IntRange(0, 11).Draw(t, "modification")
 		label := ""
 		deltaChange := false
 		switch mod {
@@ -130,6 +130,11 @@ func TestC03_SelfCertifying(t *testing.T) {
 			}
 			m.SuffixData["deltaHash"] = alt
 			label, deltaChange = "suffix-delta-hash-respelled", true
+		case 11:
+			// exactly one string is the hash of the delta: every edit of it is not
+			how := ""
+			m.SuffixData["deltaHash"], how = editString(t, m.SuffixData["deltaHash"].(string))
+			label, deltaChange = "suffix-delta-hash-edited("+how+")", true
 		case 8:
 			// same commitments hashed with the other algorithm (suffix data changes in two fields at once: still a modification)
 			o := uint(37) - alg
